@@ -1,4 +1,5 @@
 import Hyeong.Lemmas.ReplPlain
+import Hyeong.Lemmas.ChunksStop
 /-!
 # C12 — entering a program line by line interactively equals running it whole
 
@@ -51,6 +52,23 @@ theorem repl_equiv (fuel : Nat) (lines : List (List Char)) (r0 : List (List Char
   obtain ⟨outs, hrun, ho, he⟩ := chunks_eq_whole fuel (chunksOf lines) r0 code m hg h
   exact ⟨outs, ho, he, repl_plain fuel lines _ ⟨[], St.init⟩ banner outs code m.1 hpl (by omega)
     (by simpa using hg) (by show (3:Nat) ≠ 0; omega) hrun⟩
+
+/-- …and when the program stops in the middle — an exit requested through stack 1/2, or unencodable
+output: if the whole run stops with `e` having written `w.out`/`w.err`, the session shows the buffers of
+the completed lines, then — after the prompt of the stopping line — what that line had written up to the
+stop, and ends with the requested status (`stopEnd`: `exit c` for a requested exit, otherwise the diagnosed error); together these texts are exactly
+`w.out`/`w.err`, every character once and in order. -/
+theorem repl_stop_equiv (fuel : Nat) (lines : List (List Char)) (r0 : List (List Char)) (e : Stop) (w : World)
+    (hpl : ∀ l ∈ lines, Plain l) (hg : ∀ x ∈ flat (chunksOf lines), NoIn x)
+    (h : executeAll fuel [] ((St.init : St N), ⟨r0, [], []⟩) (flat (chunksOf lines)) = some (.error (e, w))) :
+    ∃ (outs : List (List Char × List Char)) (po pe : List Char),
+      w.out = (outs.map (·.1)).flatten ++ po ∧ w.err = (outs.map (·.2)).flatten ++ pe ∧
+      repl fuel (lines.length + 1) lines (⟨[], St.init⟩ : ReplState N) banner =
+        (banner ++ (outs.map (fun oe => prompt ++ showBuffers oe.1 oe.2)).flatten ++ prompt ++ showBuffers po pe, stopEnd e) := by
+  obtain ⟨outs, po, pe, hrun, ho, he⟩ := chunks_stop fuel (chunksOf lines) [] (St.init : St N) r0 [] [] e w
+    (by simpa using hg) (by show (3:Nat) ≠ 0; omega) h
+  exact ⟨outs, po, pe, by simpa using ho, by simpa using he,
+    repl_stop fuel lines (lines.length + 1) ⟨[], St.init⟩ banner outs po pe e hpl (by omega) (by simpa using hg) (by show (3:Nat) ≠ 0; omega) hrun⟩
 
 /-- `clear` returns to the initial state -/
 theorem clear_resets (fuel k : Nat) (l : List Char) (rest : List (List Char)) (rs : ReplState N) (shown : List Char)
